@@ -56,3 +56,16 @@ Example C06_nonvacuous :
   (List.length (initial_tasks (fun x => x) c files) = 3)%nat /\
   run_multiround_sched (fun x => x) (fun _ A l => rev l) c files [] <> None.
 Proof. vm_compute. split; [reflexivity | discriminate]. Qed.
+
+(* ---- source ties for the way tasks are formed (Gen/GMr.v, regenerated on every run): the batch
+   plan of a midsection round is [batched bin_size] over the sorted file pairs, labelled by the
+   zero-padded batch number — a function of the directory and of bin_size only, NOT of the number
+   of worker processes (the translator fails closed on any other shape) ---- *)
+From BB Require Import Gen.NumpySem Gen.GMr Proofs.GenTieMr Model.FpsUtil.
+Theorem C06_source_tie_batch_width : forall d r bin, (0 < bin)%nat ->
+  Z.of_nat (String.length (str_of_Z (Z.of_nat (List.length (batched bin (prev_pairs d r)))))) =
+  GMr.batch_label_width (Z.of_nat (List.length (prev_pairs d r))) (Z.of_nat bin).
+Proof. exact tie_batch_width. Qed.
+Theorem C06_source_tie_file_labels : forall n,
+  file_labels n = map (fun i => zfill (str_of_Z i) (GMr.file_label_width (Z.of_nat n))) (zseq 0 n).
+Proof. exact tie_file_label_width. Qed.
